@@ -904,6 +904,27 @@ impl rustc_driver::Callbacks for Cb {
                 }
             }
         }
+        // generic constants (`impl<S: PageSize> PhysFrame<S> { const LAST: u64 = ...S::SIZE... }`) cannot be evaluated once: their bodies
+        // are dumped like functions without arguments and interpreted per instantiation
+        for ldid in tcx.hir_crate_items(()).definitions() {
+            let did = ldid.to_def_id();
+            if !matches!(tcx.def_kind(did), DefKind::AssocConst { .. } | DefKind::Const { .. }) {
+                continue;
+            }
+            if !tcx.generics_of(did).requires_monomorphization(tcx) {
+                continue;
+            }
+            if !tcx.is_mir_available(did) && tcx.hir_maybe_body_owned_by(ldid).is_none() {
+                continue;
+            }
+            let body = tcx.mir_for_ctfe(did);
+            if nfn > 0 {
+                out.push(',');
+            }
+            out.push('\n');
+            out.push_str(&cx.function_body(did, body, None));
+            nfn += 1;
+        }
         out.push_str("],\n\"layouts\":[");
         // also every non-generic ADT defined in the crate
         for ldid in tcx.hir_crate_items(()).definitions() {
